@@ -730,4 +730,4 @@ if __name__ == "__main__":
         case = json.loads(sys.stdin.read())
         print(json.dumps(replay_case(case)))
         sys.exit(0)
-    engine.main(PROP, run_tier, replay_case)
+    engine.main(PROP, run_tier, replay_case, eval_block)
